@@ -71,6 +71,18 @@ def _classes():
     A.livestate = A2
 
     @api.expose
+    class SetLike(set):
+        """a registered object may well be a specialisation of a builtin container (its class derives from set)"""
+        def __init__(self, label):
+            set.__init__(self)
+            self.label = label
+
+        def hit(self):
+            return self.label
+
+    A.setlike = SetLike
+
+    @api.expose
     class Relay(object):
         def give(self, k):
             o = POOL[k]
@@ -111,7 +123,7 @@ step = st.one_of(
 
 def case_strategy():
     return st.fixed_dictionaries({"ser": st.sampled_from(["serpent", "json", "msgpack"]), "steps": st.lists(step, min_size=1, max_size=16),
-                                  "livestate": st.integers(0, 2).map(lambda n: n == 0)})
+                                  "livestate": st.integers(0, 2).map(lambda n: n == 0), "setlike": st.integers(0, 2).map(lambda n: n == 0)})
 
 
 _live = {}
@@ -178,6 +190,8 @@ def run_case(case, servertype=None, keep=False):
         LABEL[0] += 1
         if k == 4:
             return make_class("cls-%d" % LABEL[0])
+        if k == 2 and case.get("setlike"):
+            return A.setlike("obj%d-%d" % (k, LABEL[0]))
         return ((A.livestate if case.get("livestate") else A) if k % 2 == 0 else B)("obj%d-%d" % (k, LABEL[0]))
     for k in range(5):
         POOL[k] = fresh(k)
@@ -506,6 +520,8 @@ def _labels(case):
 
 
 CATALOGUE = [
+    [["register", 2, "x", False, False], ["give", 2], ["call", "x"], ["uri", 2], ["give_marshal", 2], ["give", 2], ["unregister_obj", 2], ["give", 2]],
+    [["register", 2, None, False, True], ["give", 2], ["call", "gen0"], ["registered"]],
     [["register", 0, "x", False, False], ["give", 0], ["give_marshal", 0], ["give", 0], ["uri", 0], ["call", "x"], ["registered"]],
     [["register", 1, None, False, True], ["give_marshal", 1], ["give", 1], ["call", "gen0"], ["give_marshal", 4], ["register", 4, "y", False, False], ["give_marshal", 4], ["give", 4]],
     [["register", 0, "x", False, True], ["register", 2, "y", False, False], ["unregister_obj", 2], ["give", 0], ["call", "x"], ["give", 2], ["registered"]],
@@ -549,7 +565,7 @@ def run(ctx):
             for ser in ("serpent", "json", "msgpack"):
                 for steps in CATALOGUE:
                     for livestate in (False, True):        # (objects whose __getstate__ hands out their live attribute dict)
-                        case = {"ser": ser, "steps": steps, "livestate": livestate}
+                        case = {"ser": ser, "steps": steps, "livestate": livestate, "setlike": livestate}
                         ctx.observe(case, run_case(case, st_, keep=True), True, _labels(case) + ["catalogue"])
         ctx.search(case_strategy(), lambda c: run_case(c, st_, keep=True), ctx.n(400, 2500), nontrivial=_nontrivial, labels=_labels,
                    name="registry" + st_, max_rounds=8)
